@@ -244,7 +244,12 @@ def cases(rng, thorough=False):
     # ---- unary ------------------------------------------------------------------------------------------------------
     for kind in ("GELU", "LOG", "SQRT", "EXP", "RSQRT"):
         for dt in ("int8", "int16", "uint8"):
-            add(f"{kind} {dt}", single(rng, lambda b, x, kind=kind: b.unary(kind, x), dtype=dt, ifm=(1, 4, 4, 8)))
+            def lut_op(b, x, kind=kind):
+                o = b.unary(kind, x)
+                if kind == "GELU":
+                    b.net.ops[-1].opts = ("GeluOptions", dict(Approximate=False))
+                return o
+            add(f"{kind} {dt}", single(rng, lut_op, dtype=dt, ifm=(1, 4, 4, 8)))
     for kind in ("RELU", "RELU6", "RELU_N1_TO_1", "LOGISTIC", "TANH", "LEAKY_RELU", "HARD_SWISH", "SOFTMAX", "ABS", "QUANTIZE"):
         for dt in ("int8", "uint8", "int16"):
             for shape in ((1, 4, 4, 8), (2, 4, 4, 8), (4, 8), (1, 1, 4, 4, 8)):
@@ -374,8 +379,71 @@ def cases(rng, thorough=False):
     # ---- operators that are never accelerated ----------------------------------------------------------------------------------------
     for which in ("custom", "floor_div", "sin_like"):
         add(f"cpu op {which}", single(rng, lambda b, x, which=which: b.cpu_op(x, which)))
+    # ---- neighbour effects: memory-only operators, constant inputs, fusing ------------------------------------------------------------
+    def chain(*steps):
+        def f(b, x):
+            cur = x
+            for st in steps:
+                cur = st(b, cur)
+                if cur is None:
+                    return None
+                if isinstance(cur, list):
+                    cur = cur[0]
+            return cur
+        return f
+    cpu = lambda b, x: b.cpu_op(x, "custom")  # noqa: E731
+    relu = lambda b, x: b.unary("RELU", x)  # noqa: E731
+    conv = lambda b, x: b.conv(x, 4, (3, 3), (1, 1), (1, 1), "SAME")  # noqa: E731
+    resh = lambda shape: (lambda b, x: b.reshape(x, list(shape)))  # noqa: E731
+    pats = {
+        "cpu-RESHAPE-cpu": chain(cpu, resh((1, 8, 4, 8)), cpu),
+        "cpu-RELU-cpu": chain(cpu, relu, cpu),
+        "conv-RESHAPE-cpu": chain(conv, resh((1, 8, 4, 8)), cpu),
+        "cpu-RESHAPE-conv": chain(cpu, resh((1, 4, 16, 4)), conv),
+        "RESHAPE-RESHAPE": chain(resh((1, 8, 4, 8)), resh((1, 256))),
+        "RESHAPE only to output": chain(resh((1, 256))),
+        "conv-RESHAPE": chain(conv, resh((1, 256))),
+        "PAD-conv": chain(lambda b, x: b.pad(x, [[0, 0], [1, 1], [1, 1], [0, 0]]), lambda b, x: b.conv(x, 4, (3, 3), (1, 1), (1, 1), "VALID")),
+        "PAD(c)-conv": chain(lambda b, x: b.pad(x, [[0, 0], [0, 0], [0, 0], [2, 2]]), conv),
+        "conv-RELU-TANH": chain(conv, relu, lambda b, x: b.unary("TANH", x)),
+        "SPLIT-cpu": chain(lambda b, x: b.split(x, 2, 3), cpu),
+        "SLICE-cpu": chain(lambda b, x: b.strided_slice(x, [0, 1, 1, 0], [1, 5, 5, 4]), cpu),
+        "cpu-SLICE-conv": chain(cpu, lambda b, x: b.strided_slice(x, [0, 1, 1, 0], [1, 5, 5, 4]), conv),
+        "conv(stride 4)-RELU": chain(lambda b, x: b.conv(x, 4, (1, 1), (4, 4), (1, 1), "VALID"), relu),
+        "MEAN-RESHAPE-fc": chain(lambda b, x: b.mean_hw(x, True), resh((1, 4)), lambda b, x: b.fc(x, 8)),
+        "QUANTIZE-QUANTIZE": chain(lambda b, x: b.quantize(x), lambda b, x: b.quantize(x, "uint8")),
+        "avgpool-LOGISTIC(int16 out)": chain(lambda b, x: b.pool(x, "AVERAGE_POOL_2D"), lambda b, x: b.unary("LOGISTIC", x)),
+    }
+
+    def concat_cpu(b, x):
+        y = b.cpu_op(x, "custom")
+        return b.concat([x, y], 3)
+    pats["CONCAT(input, cpu)"] = concat_cpu
+
+    def const_quantize(b, x):
+        c = b.const([1, 8, 8, 4], "int8", np.arange(256) % 100, [0.05], [0])
+        q = b.quantize(c)
+        return b.binary("ADD", x, q)
+    pats["QUANTIZE(const)+ADD"] = const_quantize
+
+    def const_add(b, x):
+        c1 = b.const([1, 8, 8, 4], "int8", np.arange(256) % 50, [0.05], [0])
+        c2 = b.const([1, 8, 8, 4], "int8", np.arange(256) % 30, [0.05], [0])
+        a = b.binary("ADD", c1, c2)
+        return b.binary("MUL", x, a)
+    pats["ADD(const,const)*x"] = const_add
+
+    def two_outputs(b, x):
+        y = b.conv(x, 4, (3, 3), (1, 1), (1, 1), "SAME")
+        z = b.cpu_op(y, "custom")
+        w = b.unary("RELU", y)
+        return [z, w]
+    pats["conv -> (cpu, RELU) two outputs"] = two_outputs
+    for name, pat in pats.items():
+        for dt in ("int8", "uint8"):
+            add(f"pattern {name} {dt}", single(rng, pat, dtype=dt))
     # ---- small multi-operator networks --------------------------------------------------------------------------------------------------
-    nmulti = 150 if thorough else 40
+    nmulti = 500 if thorough else 80
     for i in range(nmulti):
         prof = rng.choice(["mixed", "cpu", "elementwise", "mixed"])
         net = netgen.random_net(rng, i, prof, max_ops=4)
